@@ -16,7 +16,11 @@ Open Scope N_scope.
    in_bounds t        := t = T_RX_ACK_MIN_F \/ t = T_RX_ACK_MAX_F
                          \/ (PrimFloat.ltb T_RX_ACK_MIN_F t = true /\ PrimFloat.ltb T_RX_ACK_MAX_F t = false)
    has_frame P e      := e = Frames fs and some frame of fs satisfies P
-   is_nak / is_rstack_or_rst / acks n  : predicates on frames                                       *)
+   is_nak / is_rstack_or_rst : predicates on frames
+   acks n f           := f is a DATA/ACK/NAK frame whose ackNum is n modulo 8
+   quiescent st       := forall c, cur st = Some c -> cfut c = FPending
+                         (between events the coroutine awaiting the acknowledgement is suspended on an
+                         unresolved future; every state [final es] is quiescent, c05_quiescent)      *)
 
 (* the budget: whatever the peer does, a send's DATA frame is transmitted at most ACK_TIMEOUTS
    times, always with the same frame number and payload, the retransmit flag exactly on repeats *)
@@ -34,11 +38,26 @@ Theorem c05_deadline : forall es c, cur (final es) = Some c ->
   exists t, in_bounds t /\ cdeadline c = PrimFloat.add (csent c) t.
 Proof. exact deadline_within_bounds. Qed.
 
-(* a repeat is caused by a NAK or by the acknowledgement timeout, nothing else *)
-Theorem c05_repeat_cause : forall st e id frm ack p t,
+(* a repeat is caused by a NAK or by the acknowledgement timeout, nothing else.
+   CORRECTED: as first stated (for every [st]) this is false of the model.  Counterexample
+   ([unquiet_state] in the proofs file): st with cur = Some {cid 7; cfrm 0; cattempt 0; cfut := FNaked},
+   failed = false, and e = Frames [] (or Frames [Ack 0 0 1]): the step is
+   [HData 7 0 1 0 [] 0], a repeat with neither a Tick nor a NAK in this event -- the NAK was in the
+   state already.  Such a state never exists between events: host_step runs to quiescence.  The
+   hypothesis [quiescent st] states exactly that, and c05_quiescent shows it of every state a run
+   can reach (no uniqueness of ids needed). *)
+Theorem c05_repeat_cause : forall st e id frm ack p t, quiescent st ->
   In (HData id frm 1 ack p t) (snd (host_step st e)) ->
   e = Tick \/ has_frame is_nak e.
 Proof. exact repeat_cause. Qed.
+
+Theorem c05_quiescent : forall es, quiescent (final es).
+Proof. exact quiescent_reachable. Qed.
+
+Example c05_repeat_cause_needs_quiescent :
+  In (HData 7 0 1 0 [] 0%float) (snd (host_step unquiet_state (Frames [])))
+  /\ ~ (Frames [] = Tick \/ has_frame is_nak (Frames [])).
+Proof. exact repeat_cause_needs_quiescent. Qed.
 
 (* a send returns normally only after an acknowledgement covering its frame arrived while it was
    awaiting one *)
@@ -67,8 +86,10 @@ Theorem c05_error_reported : forall st fs v code,
   In (Error v code) fs -> In (HReset code) (snd (host_step st (Frames fs))).
 Proof. exact error_reported. Qed.
 
+(* (the count is a nat: the comparison is scoped explicitly; as first written it did not typecheck
+   under N_scope) *)
 Theorem c05_budget_reported_once : forall st,
-  length (filter (fun o => match o with HReset _ => true | _ => false end) (snd (host_step st Tick))) <= 1.
+  (length (filter (fun o => match o with HReset _ => true | _ => false end) (snd (host_step st Tick))) <= 1)%nat.
 Proof. exact tick_reports_at_most_once. Qed.
 
 (* at most one unacknowledged DATA frame: one step writes at most one DATA frame, the one the state
